@@ -953,6 +953,7 @@ class Prog:
         self.nj, self.nq = nj, nq
         self.jobs = {}
         self.seqs = {}
+        self.pending = {}       # sequence -> requirements received while it had no job yet (reference semantics)
 
     def arg(self, a):
         k = a[0]
@@ -1102,6 +1103,11 @@ def c19_oracle(p, op, before, exc, case, res):
         elif k == "seqRequires":
             js = before["Q"][op[1]]
             if not js:
+                # a sequence without job yet: what it is told to require goes to its first job, whenever it shows up
+                if exc == "-":
+                    pend = p.pending.setdefault(op[1], [])
+                    for a in op[2]:
+                        pend += ref_flat_before(before, a)
                 return
             j, args, rm = js[0], op[2], False
         else:
@@ -1160,6 +1166,16 @@ def c19_oracle(p, op, before, exc, case, res):
             named = [x for x in ref_flat_before(before, op[3]) if x != first]
             if not set(named) <= reqs(first):
                 V("newSeq: required= not given to the first job")
+            allowed.setdefault(first, set()).update(named)
+        if k == "newSeq" and not wantjobs:
+            # "gives required= to its first job": there is none yet, the requirement waits for it
+            p.pending[q] = list(ref_flat_before(before, op[3]))
+        if k == "append" and not oldjobs and wantjobs and p.pending.get(q):
+            first = wantjobs[0]
+            named = [x for x in p.pending.pop(q) if x != first]
+            if not set(named) <= reqs(first):
+                V("a sequence that had no job when it was given required= / requires(): its first job (appended later) "
+                  "does not get those requirements: %d requires %s, expected at least %s" % (first, sorted(reqs(first)), sorted(named)))
             allowed.setdefault(first, set()).update(named)
         for o in p.jobs:
             if o in before["R"]:
@@ -1625,9 +1641,15 @@ def c20_case(spec, res, batch, tag, dot_texts):
         if cluster != (("cluster_" + ids[parent]) if parent != 0 else None):
             res.violations.append(("a node is not inside the cluster of its scheduler", case))
         check_style(spec, objs, j, nid, attrs, case, res, atomic=True)
+    # (a cluster inherits the graph attributes of the cluster that encloses it: what counts is the effective style)
+    own = {name: (parent, attrs) for name, parent, attrs in g.clusters}
+    def effective(name, seen=()):
+        parent, attrs = own[name]
+        base = effective(parent, seen + (name,)) if parent in own and parent not in seen and parent != name else {}
+        return dict(base, **attrs)
     for name, parent, attrs in g.clusters:
         j = by_id[name[len("cluster_"):]]
-        check_style(spec, objs, j, ids[j], attrs, case, res, atomic=False)
+        check_style(spec, objs, j, ids[j], dict(effective(name), label=attrs.get("label")), case, res, atomic=False)
     # edges <-> requirement pairs
     want_edges = []
     for s in scheds:
